@@ -585,7 +585,14 @@ fn oscillate_once(p: &Params, seed: u64, kind: Kind, ctor_cap: usize, peak: usiz
 fn oscillate(p: &Params, seed: u64) -> HistResult {
     let mut r = crate::prng::Rng::new(seed);
     let kind = p.kind.unwrap_or_else(|| *r.pick(&[Kind::Fu, Kind::Fo, Kind::MergeU, Kind::Fu]));
-    let peak = if p.small { r.range(1, 40) } else { *r.pick(&[1usize, 2, 5, 31, 32, 33, 64, 65, 97, 200, 600]) };
+    let peak = if p.small {
+        r.range(1, 40)
+    } else if r.chance(1, 300) {
+        // beyond the 2048-slot group (rare: these runs take seconds)
+        *r.pick(&[3100usize, 4200])
+    } else {
+        *r.pick(&[1usize, 2, 5, 31, 32, 33, 64, 65, 97, 200, 600])
+    };
     let ctor_cap = if kind == Kind::MergeU { 0 } else { *r.pick(&[0usize, 0, 1, 2, 8]) };
     let period = r.range(2, 4);
     let partial = r.range(1, 5);
@@ -593,7 +600,8 @@ fn oscillate(p: &Params, seed: u64) -> HistResult {
     // FuturesOrdered: share of push_front (1 = only push_front: the head position then keeps
     // crossing the re-base boundary in every cycle)
     let front_every = *r.pick(&[5usize, 5, 2, 1]);
-    let mult = if p.small { 3 } else { 10 };
+    let mult = if p.small || peak > 1000 { 3 } else { 10 };
+    let base_cycles = if peak > 1000 { period } else { base_cycles };
     let (mut h1, n1) = oscillate_once(p, seed, kind, ctor_cap, peak, base_cycles, period, partial, front_every);
     let v1 = h1.w.has_violation();
     if !v1 {
